@@ -8,7 +8,9 @@ Driver slice `Screen` (C03, C04).
      `rz w h`            canvas.resize
      `tsz w h`           terminal.set_size (the terminal itself is resized to w x h as well)
      `dr`                screen.draw(canvas)
-  answer: one segment per `dr`: `<hex> / <state record>`, joined by ` ; ` (`-` when there is no `dr`).
+     `t <op>`            an operation streamed straight to the screen's terminal between two draws (`t sv`, `t rs`,
+                         `t mv x y`, `t hc`, `t sc`; the oracle judges scripts whose `t` ops do not print)
+  answer: one segment per `dr` and per `t`: `<hex> / <state record>`, joined by ` ; ` (`-` when there is none).
 Oracle configuration as for `T` lines (`W E R Z w h`).
 -/
 namespace Tpp.Driver.Screen
@@ -16,6 +18,7 @@ open Tpp Tpp.Driver
 
 inductive SOp
   | cv (w h : Int) | px (x y : Int) (e : Element) | rz (w h : Int) | tsz (w h : Int) | dr
+  | top (o : Op)     -- an operation streamed to the screen's terminal between two draws (`t sv`, `t rs`, `t mv x y`, `t hc`, `t sc`)
 
 def rdSOp : Rd (Option SOp) := do
   let w ← Rd.word
@@ -30,6 +33,9 @@ def rdSOp : Rd (Option SOp) := do
   | "rz" => do let a ← Rd.int; let b ← Rd.int; return some (.rz a b)
   | "tsz" => do let a ← Rd.int; let b ← Rd.int; return some (.tsz a b)
   | "dr" => return some .dr
+  | "t" => do
+      let o ← rdOp
+      return o.map SOp.top
   | _ => return none
 
 def parseS (rest : String) : Behaviour × List SOp :=
@@ -47,6 +53,9 @@ def runModel (beh : Behaviour) : List SOp → ScreenState → Canvas → TermSta
     | .px x y e => runModel beh ops scr (if inCanvas cvs x y then cvs.set x y e else cvs) ts
     | .rz w h => runModel beh ops scr (cvs.resize ⟨w, h⟩) ts
     | .tsz w h => runModel beh ops scr cvs (step beh ts (.setSize ⟨w, h⟩)).1
+    | .top o =>
+      let (ts', out) := step beh ts o
+      s!"{hex out} / {showState ts'}" :: runModel beh ops scr cvs ts'
     | .dr =>
       let (scr', dops) := Screen.draw scr cvs
       let (ts', out) := Tpp.run beh ts dops
@@ -98,13 +107,15 @@ def checkDraw (c : OCfg) (i : Nat) (st : SSt) (bytes : List Byte) : SSt :=
     | some d => if d.size = cvs.size then d else Canvas.new cvs.size
     | none => Canvas.new cvs.size
   let expected := changedCells base cvs
+  let erasedNow := match st.drawn with | some d => d.size != cvs.size | none => true
+  let c09 := if erasedNow then s!" C09@{i} (text after the erase of a size-changing draw)" else ""
   let new := vt.log.drop before.log.length
   let st := if st.drawn.isSome && (st.drawn.map (fun d => decide (d = cvs))).getD false && !bytes.isEmpty
     then st.fail s!"C04@{i} drawing the canvas last drawn wrote {bytes.length} bytes" else st
   let st := if new.map (fun t => ((t.1 : Int), (t.2.1 : Int))) = expected then st
     else st.fail s!"C04@{i} transmitted {new.length} glyphs, {expected.length} cells changed (or positions/order differ)"
   let st := if new.map (·.2.2) = expected.map (fun p => cellOf (cvs.get p.1 p.2)) then st
-    else st.fail s!"C04@{i} C01@{i} transmitted glyphs are not the changed cells' elements"
+    else st.fail s!"C04@{i} C01@{i}{c09} transmitted glyphs are not the changed cells' elements"
   -- C03: the display shows the canvas
   let bad := (regionCoords ⟨⟨0, 0⟩, cvs.size⟩).filter fun p => vt.cell p.1.toNat p.2.toNat ≠ cellOf (cvs.get p.1 p.2)
   let brSent := expected.any fun p => p.1 + 1 = cvs.size.width && p.2 + 1 = cvs.size.height
@@ -131,6 +142,18 @@ def runOracle (c : OCfg) : Nat → SSt → List SOp → List (List Byte × State
         let vt' := if st.sized && st.vt.w = w.toNat && st.vt.h = h.toNat then st.vt else resizeVT c st.vt w.toNat h.toNat
         runOracle c (i + 1) { st with vt := vt', sized := true } ops answers
       else { st with stop := true }
+    | .top o =>
+      match answers with
+      | [] => st.fail "C03 missing answer"
+      | (bytes, _) :: rest =>
+        -- only operations that print nothing keep the script in the domain (the screen does not know about text
+        -- written behind its back); positions must be inside the size
+        let inDomain := match o with
+          | .saveCursor | .restoreCursor | .hideCursor | .showCursor => true
+          | .moveCursor p => decide (0 ≤ p.x) && decide (0 ≤ p.y) && decide (p.x.toNat < st.vt.w) && decide (p.y.toNat < st.vt.h)
+          | _ => false
+        if !inDomain then { st with stop := true } else
+        runOracle c (i + 1) { st with vt := (compactVT st.vt).feedAll bytes } ops rest
     | .dr =>
       match answers with
       | [] => st.fail "C03 missing answer"
